@@ -138,7 +138,7 @@ End Stack.
 Section Inv.
   Variable prims : list name.
 
-  Definition ir_of (m : mm) (anc : amap) (smap : list (name * option bool))
+  Definition ir_of (m : mm) (anc : amap) (smap : list (name * option (option bool)))
              (imap pmap mmap : list (name * list (ident name)))
              (kmap : list (name * list (ident stmt)))
              (ifm : list (name * option (list name))) (c : cls) : cls_ir :=
@@ -407,8 +407,8 @@ Section Ser.
         apply ser_step_other. intro Hx. apply Hk. left. symmetry. exact Hx.
   Qed.
 
-  Definition sv (smap : list (name * option bool)) (x : name) : option bool :=
-    match lookup x smap with Some (Some v) => Some v | _ => None end.
+  Definition sv (smap : list (name * option (option bool))) (x : name) : option bool :=
+    match lookup x smap with Some (Some (Some v)) => Some v | _ => None end.
   Definition o2l (o : option bool) : list bool := match o with Some v => [v] | None => [] end.
 
   Lemma ser_step_eq : forall smap n c,
@@ -418,18 +418,20 @@ Section Ser.
     | [] => fst (ser_step prims m anc (smap, false) n) = smap
     | first :: rest =>
         (forall v, In v rest -> v = first)
-        /\ fst (ser_step prims m anc (smap, false) n) = update n (Some first) smap
+        /\ fst (ser_step prims m anc (smap, false) n) = update n (Some (Some first)) smap
     end.
   Proof.
     intros smap n c Hcp Hc H. unfold ser_step in *. rewrite Hcp, Hc in *.
-    assert (Eg : forall x, match lookup x smap with Some (Some v) => [v] | _ => [] end = o2l (sv smap x)).
-    { intro x. unfold sv, o2l. destruct (lookup x smap) as [[v|]|]; reflexivity. }
+    assert (Eg : forall x, match lookup x smap with Some (Some (Some v)) => [v] | _ => [] end = o2l (sv smap x)).
+    { intro x. unfold sv, o2l. destruct (lookup x smap) as [[[v|]|]|]; reflexivity. }
+    assert (Esw : forall cur v, set_wmt cur v = Some (Some v)).
+    { intros [[w|]|] v; reflexivity. }
     rewrite (flat_map_ext_In _ _ _ (fun b => o2l (sv smap b)) (c_bases c) (fun a _ => Eg a)) in *.
     rewrite Eg in *.
     destruct (flat_map (fun b => o2l (sv smap b)) (c_bases c) ++ o2l (sv smap n)) as [|first rest];
       [reflexivity|].
     destruct (forallb (Bool.eqb first) rest) eqn:E; cbn [fst snd] in *; [|discriminate].
-    split; [|reflexivity]. intros v Hv. rewrite forallb_forall in E. specialize (E v Hv).
+    split; [|rewrite Esw; reflexivity]. intros v Hv. rewrite forallb_forall in E. specialize (E v Hv).
     apply eqb_prop in E. symmetry. exact E.
   Qed.
 End Ser.
@@ -454,7 +456,7 @@ Section SerFold.
     topo_sort prims m = Ok order ->
     stack_serializations prims m anc order = (smap, false) ->
     forall c, In c m -> is_cp prims m anc (c_name c) = false ->
-      match flat_map (fun b => o2l (sv smap b)) (c_bases c) ++ o2l (c_wmt c) with
+      match flat_map (fun b => o2l (sv smap b)) (c_bases c) ++ o2l (decl_wmt c) with
       | [] => sv smap (c_name c) = None
       | first :: rest => sv smap (c_name c) = Some first /\ forall v, In v rest -> v = first
       end.
@@ -492,8 +494,8 @@ Section SerFold.
       { rewrite Eo in Hndo. intro H.
         apply (NoDup_app_l_not_r _ l1 (n :: l2) b Hndo Hb1). right. exact H. }
       rewrite (Hl2 b Hb2). unfold st2. rewrite ser_step_other; [reflexivity | exact Hbn]. }
-    assert (Hsvn : sv s1 n = c_wmt c).
-    { unfold sv. rewrite Hown. destruct (c_wmt c); reflexivity. }
+    assert (Hsvn : sv s1 n = decl_wmt c).
+    { unfold sv, decl_wmt. rewrite Hown. destruct (c_wmt c) as [[w|]|]; reflexivity. }
     rewrite (flat_map_ext_In _ _ _ (fun b => o2l (sv s1 b)) (c_bases c)
                (fun b Hb => f_equal o2l (Hbase b Hb))).
     rewrite <- Hsvn.
@@ -502,7 +504,7 @@ Section SerFold.
     destruct (flat_map (fun b => o2l (sv s1 b)) (c_bases c) ++ o2l (sv s1 n)) as [|first rest] eqn:Ew.
     - unfold sv at 1. rewrite Hn, Heq, Hown.
       apply app_eq_nil in Ew. destruct Ew as [_ Ew]. rewrite Hsvn in Ew.
-      destruct (c_wmt c); [discriminate | reflexivity].
+      unfold decl_wmt in Ew. destruct (c_wmt c) as [[w|]|]; [discriminate | reflexivity | reflexivity].
     - destruct Heq as [Hall Heq]. split; [|exact Hall].
       unfold sv. rewrite Hn, Heq, lookup_update_same. reflexivity.
   Qed.
@@ -513,13 +515,13 @@ Section SerFold.
     stack_serializations prims m anc order = (smap, false) ->
     forall c, In c m -> is_cp prims m anc (c_name c) = false ->
       (forall b v, In b (c_bases c) -> sv smap b = Some v -> sv smap (c_name c) = Some v)
-      /\ (forall v, c_wmt c = Some v -> sv smap (c_name c) = Some v)
+      /\ (forall v, decl_wmt c = Some v -> sv smap (c_name c) = Some v)
       /\ (forall v, sv smap (c_name c) = Some v ->
-            c_wmt c = Some v \/ exists b, In b (c_bases c) /\ sv smap b = Some v).
+            decl_wmt c = Some v \/ exists b, In b (c_bases c) /\ sv smap b = Some v).
   Proof.
     intros Hwf order smap Et Hs c Hc Hcp.
     pose proof (model_type_fold_thm Hwf order smap Et Hs c Hc Hcp) as H.
-    set (L := flat_map (fun b => o2l (sv smap b)) (c_bases c) ++ o2l (c_wmt c)) in H.
+    set (L := flat_map (fun b => o2l (sv smap b)) (c_bases c) ++ o2l (decl_wmt c)) in H.
     assert (HL : forall v, In v L -> sv smap (c_name c) = Some v).
     { intros v Hv. destruct L as [|first rest]; [destruct Hv|].
       destruct H as [H1 H2]. destruct Hv as [<-|Hv]; [exact H1|]. rewrite (H2 v Hv). exact H1. }
@@ -533,7 +535,7 @@ Section SerFold.
     - intros v Hv. apply HL2 in Hv. unfold L in Hv. apply in_app_or in Hv. destruct Hv as [Hv|Hv].
       + right. apply in_flat_map in Hv. destruct Hv as [b [Hb Hv]]. exists b. split; [exact Hb|].
         destruct (sv smap b) as [w|]; [|destruct Hv]. destruct Hv as [<-|[]]. reflexivity.
-      + left. destruct (c_wmt c) as [w|]; [|destruct Hv]. destruct Hv as [<-|[]]. reflexivity.
+      + left. destruct (decl_wmt c) as [w|]; [|destruct Hv]. destruct Hv as [<-|[]]. reflexivity.
   Qed.
 End SerFold.
 
@@ -839,9 +841,9 @@ Section E2E.
           /\ (i_is_cp ci = false ->
                 i_wmt ci = Some (match setting (c_name c) with Some v => v | None => false end)
                 /\ (forall b v, In b (c_bases c) -> setting b = Some v -> setting (c_name c) = Some v)
-                /\ (forall v, c_wmt c = Some v -> setting (c_name c) = Some v)
+                /\ (forall v, decl_wmt c = Some v -> setting (c_name c) = Some v)
                 /\ (forall v, setting (c_name c) = Some v ->
-                      c_wmt c = Some v \/ exists b, In b (c_bases c) /\ setting b = Some v)).
+                      decl_wmt c = Some v \/ exists b, In b (c_bases c) /\ setting b = Some v)).
   Proof.
     intros m r H Hwf.
     destruct (translate_inv prims m r H)
@@ -850,7 +852,7 @@ Section E2E.
     exists (sv smap). intros c Hc. eexists. split.
     { unfold class_ir. cbn [r_classes]. apply find_map_name; [intro x; reflexivity | exact Hnd | exact Hc]. }
     cbn [ir_of i_wmt i_is_cp]. intro Hcp. rewrite Hcp. split.
-    - unfold final_wmt, sv. destruct (lookup (c_name c) smap) as [[v|]|]; reflexivity.
+    - unfold final_wmt, sv. destruct (lookup (c_name c) smap) as [[[v|]|]|]; reflexivity.
     - apply (model_type_consistent_thm prims m anc Hwf order smap Et Hs c Hc Hcp).
   Qed.
 End E2E.
